@@ -531,6 +531,8 @@ def transform_routing(repo: Repo) -> RuleRun:
                 kwargs = {k.arg: ev.eval(k.value) for k in call.keywords}
                 calls.append((recv._name, call.func.attr, args, kwargs))
                 return recv
+        if name in ("np.array", "np.asarray", "numpy.array", "numpy.asarray", "np.copy", "numpy.copy") and call.args:
+            return ev.eval(call.args[0])  # a copy / view of a symbolic vector is that vector as far as routing goes
         return NO_MATCH
 
     def mk(kind, **fields):
@@ -966,4 +968,40 @@ def live_arrays(repo: Repo) -> RuleRun:
 
 live_arrays.rule_id = "C09.LIVE-ARRAYS"
 
-RULES = [arc_sense, purity, no_alias_store, affine_balance, unit_normal, direction_parts, transform_equals_methods, transform_routing, linear_parts, deep_copy, mirror_matrix, no_shared_parts, arguments_untouched, super_forwarding, inplace_then_read, invalidate_last, live_lengths, private_coordinates, live_arrays]
+def displacement_copied(repo: Repo) -> RuleRun:
+    """'translating ... any entity ... gives the same vertices as applying that map to the geometry': also when the vector is one of the entity's own positions."""
+    from ..transforms import loop_alias_rule
+
+    return loop_alias_rule(repo, PROP, "C09.DISPLACEMENT-COPIED")
+
+
+displacement_copied.rule_id = "C09.DISPLACEMENT-COPIED"
+
+
+def average_axis(repo: Repo) -> RuleRun:
+    """'center' of composite entities (the default origin of rotate / scale) is a point: an average over a collection of points keeps
+    the coordinate axis. np.average / np.mean without ``axis`` collapses a list of vectors to ONE number, and an origin given
+    as a number is broadcast to (c, c, c). Every average over point collections in the package is examined (siblings agree)."""
+    r = RuleRun(PROP, "C09.AVERAGE-AXIS", floor=12, what="every np.average / np.mean over a collection of points or vectors keeps the coordinate axis (axis=...), so centres are points, not single numbers")
+    nth = {}
+    for fn in sorted(repo.all_functions(), key=lambda f: f.qualname):
+        for c in ast.walk(fn.node):
+            if isinstance(c, ast.Call) and (attr_chain(c.func) or "") in ("np.average", "np.mean", "numpy.average", "numpy.mean", "np.median", "numpy.median") and c.args:
+                has_axis = any(k.arg == "axis" for k in c.keywords) or len(c.args) >= 2
+                k = nth.get(fn.qualname, 0)
+                nth[fn.qualname] = k + 1
+                r.check(
+                    has_axis,
+                    fn,
+                    f"'{ast.unparse(c)[:60]}' keeps the coordinate axis",
+                    f"{fn.qualname}: '{ast.unparse(c)[:80]}' averages a collection of points without an axis argument: the result is one number (the mean of all coordinates), not a point - used as an origin it is broadcast to (c, c, c), "
+                    "so rotate() / scale() without an explicit origin turn about a meaningless point",
+                    c,
+                    key=f"average#{k}",
+                )
+    return r
+
+
+average_axis.rule_id = "C09.AVERAGE-AXIS"
+
+RULES = [arc_sense, purity, no_alias_store, affine_balance, unit_normal, direction_parts, transform_equals_methods, transform_routing, linear_parts, deep_copy, mirror_matrix, no_shared_parts, arguments_untouched, super_forwarding, inplace_then_read, invalidate_last, live_lengths, private_coordinates, live_arrays, displacement_copied, average_axis]
